@@ -320,7 +320,6 @@ def canon(R, v, depth=0):
     return "?" + t.__module__ + "." + t.__qualname__
 
 
-_ENUM = [("SecurityError", "Security"), ("SerializeError", "Serialize")]
 
 
 def err_enum(R, x):
